@@ -5,7 +5,7 @@ PROP = dict(
     level_text='Generated attacker edit scripts over real ciphertext streams for every enabled suite x version x direction, checked against a reference stream model; plus a bounded-exhaustive sweep flipping every single bit of a minimal application record and its predecessor. Cannot show that no forgery exists, only that none of the generated edits is accepted.',
     level_note='Trusted: harness record splitter; sender is MatrixSSL itself (an independent sender is exercised by C10). One wire record per application message is asserted, otherwise the case is discarded and counted.',
     technique='property-based testing against a reference stream model (prefix oracle) + bounded-exhaustive single-bit corruption sweep',
-    rule='case = (version, suite, direction, 1-5 message lengths from boundary set/random, receiver chunking, one edit op of 18 kinds (incl. a genuine CBC record rebuilt with up to 15 extra padding blocks, and a bit flipped inside its padding) with position/values); non-trivial = the edit hit a protected record the receiver processed; distinct by (version, suite, direction, op, position class). Sweep: index -> (version, suite, direction, record, bit).',
+    rule='case = (version, suite, direction, 1-5 message lengths from boundary set/random, receiver chunking, one edit op of 18 kinds (incl. a genuine CBC record rebuilt with up to 15 extra padding blocks, and a bit flipped inside its padding) with position/values); non-trivial = the edit hit a protected record the receiver processed; distinct by (version, suite, direction, op, position class). Bulk sub-property (TLS): one write of 1-3 records plus a boundary remainder (16384 or a negotiated max_fragment_length of 512..4096), 1-3 writes, unedited or one flipped bit: delivered stream = submitted stream, or a prefix of it and a dead session. DTLS datagrams around the PMTU must be one record or a refusal. Sweep: index -> (version, suite, direction, record, bit).',
     assumptions=['attacker edits ciphertext only; keys unknown (the long-padding ops use the sender\'s own write key to build a record the sender could legally have sent)'],
     targets=[dict(name='c02_stream', src=SRC, wraps=WRAPS, env={'VERIF_DIR': '/verif'},
                   quick=dict(cases=4000, secs=60), thorough=dict(cases=200000, secs=900)),
